@@ -440,7 +440,7 @@ func (w *c17World) deliver(d *c17Delivery) {
 			return
 		}
 		// I6: a faithful delivery inside all lifetimes must complete
-		relayOK := !d.hasRS || d.relay == "" || named != nil
+		relayOK := d.hasRS && fl.index != "" && d.relay == fl.index // "with RelayState echoed faithfully": only then is completion required
 		if authentic && respFresh && relayOK {
 			w.violation("I6/valid-delivery-refused", "delivery with the authentic tracking cookie, a fresh response and a verifiable RelayState was refused", extra)
 			return
